@@ -117,6 +117,38 @@ def s_record_alpn(vc):
     vc.ensure("established_hook_for_this_side", kinds == (["TlsEstablishedServerHook"] if side == "server" else ["TlsEstablishedClientHook"]))
 
 
+CTL = "mitmproxy.proxy.layers.tls:ClientTLSLayer"
+
+
+@scenario("client_tls_layer.init.outer_session_forgotten", functions=[CTL + ".__init__"])
+def s_client_tls_init(vc):
+    """TLS-over-TLS (secure web proxy, then CONNECT and an inner handshake on the same client connection): the inner
+    ClientTLSLayer must forget the outer session's attributes. alpn_select_callback returns a pinned client.alpn *before* it
+    looks at the upstream protocol, so an ALPN left over from the outer connection would be handed to the inner client even
+    when the upstream protocol is known and different ("that protocol or none")."""
+    outer_tls = vc.case("client_has_outer_tls", [True, False])
+    outer_alpn = vc.opt("outer_alpn", vc.sym_bytes("outer_alpn_v"))
+    outer_sni = vc.opt("outer_sni", vc.sym_str("outer_sni_v"))
+    offers = [vc.sym_bytes("outer_offer")]
+    client = mk_client(vc, tls=outer_tls, alpn=outer_alpn, sni=outer_sni, alpn_offers=vc.list(offers), cipher="TLS_AES_128_GCM_SHA256",
+                       tls_version="TLSv1.3", timestamp_tls_setup=2.0, cipher_list=vc.list(["TLS_AES_128_GCM_SHA256"]))
+    server = mk_server(vc)
+    ctx = mk_context(vc, client, server, layers=[1, 2])
+    out = vc.call(CTL + ".__init__", vc.new(CTL), ctx)
+    vc.ensure("no_exception", out.ok)
+    if not out.ok:
+        return
+    if outer_tls:
+        vc.ensure("outer.alpn_forgotten", isnone(client.alpn))
+        vc.ensure("outer.sni_forgotten", isnone(client.sni))
+        off = client.alpn_offers.items if vc.mode == "sym" else client.alpn_offers
+        vc.ensure("outer.alpn_offers_forgotten", len(off) == 0)
+        vc.ensure("outer.tls_version_and_cipher_forgotten", isnone(client.tls_version) and isnone(client.cipher))
+    else:
+        vc.ensure("no_outer_tls.alpn_untouched", vc.eq(client.alpn, outer_alpn))
+        vc.ensure("no_outer_tls.sni_untouched", vc.eq(client.sni, outer_sni))
+
+
 def bounded(tier, seed):
     """All offer lists up to length 3 over 7 protocol classes x forced/upstream ALPN states x http2, on the real callback."""
     import itertools
